@@ -194,3 +194,7 @@ func NoHang(iterations int, f func()) {
 }
 
 var nativePanic any
+
+// OnAtomicLoad installs a hook that runs right after every atomic.Value load in
+// the code under test: a preemption point for interleaving harnesses. nil removes it.
+func OnAtomicLoad(f func()) {}
